@@ -531,9 +531,66 @@ def requesters_interleaved(sw: int) -> bool:
         # sanity of the alone runs: A can use all three classes, B all or all but MR; the echo came back
         ok = ok and alone_a[5] is None and alone_b[5] is None and len(alone_a[1]) == 3 \
             and len(alone_b[1]) == (2 if b_rejects else 3) and ('echo', True, 77 + ta) in alone_a[4]
+        # requesting an association leaves the process-wide socket defaults alone (they apply to every other socket)
+        from pynetdicom2 import fsm as _fsm
+        ok = ok and _fsm.socket.getdefaulttimeout() is None
     deep(ok and sched == 0b00010101)
     return ok
 
+
+
+def _simultaneous(mid_a, mid_b, first_b):
+    """two established acceptor-side associations of one entity receive a C-ECHO-RQ at the same instant: the octets of
+    both are readable before either provider thread runs; right after the first thread's read returns, the other
+    thread runs (the likeliest pre-emption point).  -> (message ids answered on A, on B)"""
+    from vt import sim
+    from vt.harness import live as L
+    L.install(sim.SimClock(1000))
+    ae = LiveEntity()
+    la, lb = L.LiveAcceptor(ae, 'CLIENT_A'), L.LiveAcceptor(ae, 'CLIENT_B')
+    for lv, nm in ((la, 'CLIENT_A'), (lb, 'CLIENT_B')):
+        lv.deliver(request(nm, 16384, False, False, 0).encode())
+        lv.establish()
+    na, nb = len(la.wire()), len(lb.wire())
+    la.sock.inbox.append(wire_of(echo(mid_a)))
+    lb.sock.inbox.append(wire_of(echo(mid_b)))
+    one, other = (lb, la) if first_b else (la, lb)
+    L.StepSocket.io_hook = lambda sock: (other if sock is one.sock else one).pump.run()
+    try:
+        one.pump.run()
+        other.pump.run()
+    finally:
+        L.StepSocket.io_hook = None
+    la.serve_one()
+    lb.serve_one()
+
+    def answered(lv, n0):
+        out = []
+        for raw in lv.wire()[n0:]:
+            if raw[0] == 4:
+                out.append(Sent([pdu.PDataTfPDU.decode(raw)]).responded_to)
+        return out
+    return answered(la, na), answered(lb, nb), la.pump.err, lb.pump.err
+
+
+@cond(bounds='two associations of one entity over REAL providers receive a C-ECHO-RQ at the same instant (message ids from '
+             '{1, 0x1111, 65535} x {2, 0x2222, 65534}, symbolic selectors): both requests are readable before either '
+             'provider thread runs, and the other thread runs right after the first thread\'s read returns (either '
+             'thread first: symbolic); each association answers its own request with its own message id',
+      timeout=120)
+def simultaneous_reads(ia: int, ib: int, first_b: bool) -> bool:
+    """
+    pre: 0 <= ia <= 2 and 0 <= ib <= 2
+    post: _
+    """
+    from vt import sim
+    mid_a, mid_b = (1, 0x1111, 65535)[pick(ia, 0, 2)], (2, 0x2222, 65534)[pick(ib, 0, 2)]
+    first_b = bool(pick(int(first_b), 0, 1))
+    with sim._no_tracing():
+        ra, rb, ea, eb = _simultaneous(mid_a, mid_b, first_b)
+    ok = ra == [mid_a] and rb == [mid_b] and ea is None and eb is None
+    deep(ok and first_b and ia == 1)
+    return ok
 
 
 # ------------------------------------------------------------------------------------------------
